@@ -174,8 +174,9 @@ class IlState:
             cid, data = IDS[i], bytes([0x30, 0x00, 0x05])
             s.fc[i] -= 1
         else:
-            # a frame of an unrelated ID that looks like a consecutive frame
-            cid, data = FOREIGN, bytes([0x21, 0xDE, 0xAD, 0xBE, 0xEF, 0x00, 0x01, 0x02])
+            # a frame of an unrelated ID that looks like a consecutive frame (first one) / a single frame (second one)
+            cid = FOREIGN
+            data = bytes([0x21, 0xDE, 0xAD, 0xBE, 0xEF, 0x00, 0x01, 0x02]) if s.foreign % 2 else bytes([0x03, 0xDE, 0xAD, 0xBE])
             s.foreign -= 1
         try:
             got = [(c, bytes(t)) for c, t in s.sm.decode_rx_frame(cid, data)]
@@ -404,7 +405,7 @@ def run(ctx: Ctx) -> None:
     combos: List[Tuple[Tuple[Tuple[str, ...], ...], int, int]] = []
     for a in shapes:
         for b in shapes:
-            combos.append((((a,), (b,)), 1, 1))
+            combos.append((((a,), (b,)), 1, 2))
             for c in shapes:
                 if q and "FF+17CF" in (a, b, c) and (a, b, c).count("FF+17CF") > 1:
                     continue
@@ -416,7 +417,7 @@ def run(ctx: Ctx) -> None:
                 for b2 in shapes[:3]:
                     if q and (a, a2) > (b, b2):
                         continue
-                    combos.append((((a, a2), (b, b2)), 1, 1))
+                    combos.append((((a, a2), (b, b2)), 1, 2 if (a, a2, b, b2).count("SF") >= 2 else 1))
     if not q:
         combos.append(((("FF+17CF", "SF"), ("SF", "FF+17CF")), 1, 1))
         combos.append(((("FF+2CF", "FF+2CF", "SF"), ("FF+1CF", "SF", "FF+2CF")), 1, 1))
